@@ -1052,7 +1052,17 @@ func c07Positioned(c *Ctx, p *Prog) {
 		add(r)
 	}
 	n := 0
+	// an error passed on unchanged from another function of the package is fine exactly when that function obeys the same
+	// rule: it joins the set (and a bare error is then reported where it is made, with the chain that returns it)
+	work := make([]*ssa.Function, 0, len(inSet))
 	for f := range inSet {
+		work = append(work, f)
+	}
+	sort.Slice(work, func(i, j int) bool { return fnName(work[i]) < fnName(work[j]) })
+	via := map[*ssa.Function]string{}
+	perFn := map[*ssa.Function]int{}
+	for wi := 0; wi < len(work); wi++ {
+		f := work[wi]
 		res := f.Signature.Results()
 		if res.Len() == 0 || !isErrorType(res.At(res.Len()-1).Type()) {
 			continue
@@ -1090,6 +1100,20 @@ func c07Positioned(c *Ctx, p *Prog) {
 								origins = append(origins, "same")
 							case sc.Pkg != nil && sc.Pkg.Pkg.Path() == modPath+"/benchproc/internal/parse" && strings.HasPrefix(sc.Name(), "Parse"):
 								origins = append(origins, "parser")
+							case sc.Pkg != nil && sc.Pkg == f.Pkg && sc.Blocks != nil && f.Pkg.Pkg.Path() == modPath+"/benchproc":
+								if !inSet[sc] {
+									inSet[sc] = true
+									via[sc] = fnName(f)
+									work = append(work, sc)
+									for _, a := range sc.AnonFuncs {
+										if a.Signature.Results().Len() > 0 && isErrorType(a.Signature.Results().At(a.Signature.Results().Len()-1).Type()) && !inSet[a] {
+											inSet[a] = true
+											via[a] = fnName(f)
+											work = append(work, a)
+										}
+									}
+								}
+								origins = append(origins, "same")
 							default:
 								origins = append(origins, "call:"+fnName(sc))
 							}
@@ -1121,14 +1145,19 @@ func c07Positioned(c *Ctx, p *Prog) {
 			}
 			walk(retLast(ret), 0)
 			n++
+			perFn[f]++
 			badO := ""
 			for _, o := range origins {
 				if strings.HasPrefix(o, "call:") || strings.HasPrefix(o, "other") {
 					badO = o
 				}
 			}
-			c.Check(badO == "", R, fmt.Sprintf("%s:return#%d", fnName(f), n), p.pos(ret.Pos()), "returns nil, a positioned syntax error, or one passed on from the parsers",
-				"an error is returned as it came from "+strings.TrimPrefix(badO, "call:")+", not as a *parse.SyntaxError with the offset of the offending key: the rejection of e.g. an empty key is no longer positioned inside the expression")
+			chain := ""
+			if v := via[f]; v != "" {
+				chain = " (this function's error is passed on unchanged by " + v + ")"
+			}
+			c.Check(badO == "", R, fmt.Sprintf("%s:return#%d", fnName(f), perFn[f]), p.pos(ret.Pos()), "returns nil, a positioned syntax error, or one passed on from the parsers",
+				"an error is returned as it came from "+strings.TrimPrefix(badO, "call:")+chain+", not as a *parse.SyntaxError with the offset of the offending key: the rejection of e.g. an empty key is no longer positioned inside the expression")
 		}
 	}
 	c.Floor(R, "error returns of the filter and projection constructors", n, 8)
